@@ -51,7 +51,7 @@ CHECKS = {
                 text="Bounded symbolic verification of race freedom: for all 21 parallel functions found by AST scan, no two iterations (unbounded iteration numbers / element indices) access the same cell with a write - for the regular assemblers under the colouring invariant, which is itself decided for every local2global table of 3 elements x 2 (3) local dofs; constructors are swept concretely (auxiliary). Bitwise thread-count independence then follows because each iteration is sequential and deterministic.",
                 ref="3/C16"),
     "C17": dict(cat="translation_validation", tech="symbolic execution of the FMM glue (fmm_assembler, exafmm interface, near-field helpers, map_to_points) with a fake exact-summation exafmm and an uninterpreted kernel family vs the dense assembler; polynomial identities with UFs (cvc5/z3) + NRA kernel lemmas",
-                text="For a symbolic vector and free geometry the FMM-mode matvec equals the dense-mode matvec row by row for scalar, hypersingular and Maxwell electric-field operators (whole-grid, boundary-dof and segment spaces) and scalar potentials, with the far field replaced by exact summation (both through a fake exafmm and through the library's own dense_evaluation switch); the kernel relations used to couple both paths are proved for the real kernels.",
+                text="For a symbolic vector and free geometry the FMM-mode matvec equals the dense-mode matvec row by row for scalar, hypersingular, Maxwell electric-field and Maxwell magnetic-field operators (whole-grid, boundary-dof and segment spaces, one and two grids), scalar potentials and both Maxwell potentials, with the far field replaced by exact summation (both through a fake exafmm and through the library's own dense_evaluation switch); the kernel relations used to couple both paths are proved for the real kernels.",
                 ref="3/C17"),
     "C18": dict(cat="model_checking", tech="bounded exploration of API-call histories on the real code with symbolic parameter tokens; per history an LIA validity query (z3/cvc5) that every quadrature/FMM setting reaching the numerics is the operator's own",
                 text="All histories of <= 2 (3 thorough) events from 7 kinds x 2 placements of the operator's creation x 7 observed operation kinds (791 quick) are executed; for each the solver decides, for ALL parameter values, whether a setting other than the explicit parameter object's can reach a rule lookup or a cached FMM interface. Two genuine defects surfaced: one repaired (FMM ignored explicit parameters), one listed as a known finding (grid-function projections use the space-cached, globally parameterised mass matrix).",
